@@ -34,7 +34,8 @@ RULE = ("each evaluation is one stored variant (junk inserted with multiplicity 
         "moved / one junk line deleted / a parsable line garbled / that line deleted) of a "
         "generated chart parsed once under the dispatcher monitor. Distinct = distinct variant "
         "text digest; non-trivial = the variant contains at least one injected junk line or a "
-        "garbled/deleted line")
+        "garbled/deleted line. A fifth of the runs read every variant through a reader whose "
+        "sized reads return short; a quarter parse their variants from two concurrent clients")
 ASSUMPTIONS = [
     "'no string can be claimed by two kinds' quantifies over all strings; simulation monitors it "
     "on the lines that occur in runs (generated, corrupted and junk lines) and does not decide it "
